@@ -84,3 +84,27 @@ func RawMfraOpt(trackID uint32, times, moofOffsets []uint64, version byte, lengt
 	mfro := box("mfro", append([]byte{0, 0, 0, 0}, be32(mfraSize)...))
 	return box("mfra", append(tfra, mfro...))
 }
+
+// RawMfraTracks: an mfra with one tfra per track (track ids 1..n); tfra k lists the first counts[k] of the given
+// fragment offsets (a track may have fewer or more random access entries than another one).
+func RawMfraTracks(moofOffsets []uint64, counts []int) []byte {
+	var body []byte
+	for k, c := range counts {
+		t := []byte{1, 0, 0, 0}
+		t = append(t, be32(uint32(k+1))...)
+		t = append(t, be32(0)...)
+		t = append(t, be32(uint32(c))...)
+		for i := 0; i < c; i++ {
+			off := uint64(0)
+			if i < len(moofOffsets) {
+				off = moofOffsets[i]
+			}
+			t = append(t, be64(uint64(i))...)
+			t = append(t, be64(off)...)
+			t = append(t, 1, 1, 1)
+		}
+		body = append(body, box("tfra", t)...)
+	}
+	mfro := box("mfro", append([]byte{0, 0, 0, 0}, be32(uint32(8+len(body)+16))...))
+	return box("mfra", append(body, mfro...))
+}
